@@ -36,3 +36,38 @@ def outcome(fn, *a, **k):
         return ("ok", fn(*a, **k))
     except Exception as e:  # noqa
         return ("exc", type(e).__name__, e)
+
+
+def deep_fp(obj, _depth=0, _seen=None, units=False):
+    """Deep, deterministic value fingerprint of a library object graph: quantities -> hex of the raw magnitude
+    (plus display unit when units=True), floats -> hex, containers and objects recursively (attribute names sorted)."""
+    if _seen is None:
+        _seen = set()
+    if obj is None or isinstance(obj, (bool, str)):
+        return repr(obj)
+    if isinstance(obj, float):
+        return obj.hex()
+    if isinstance(obj, int):
+        return str(int(obj))
+    if hasattr(obj, "raw_value") and hasattr(obj, "units"):
+        rv = obj.raw_value
+        s = float(rv).hex() if isinstance(rv, (int, float)) else repr(rv)
+        return ("Q", s, int(obj.units)) if units else ("Q", s)
+    if _depth > 12:
+        return "<deep>"
+    if isinstance(obj, dict):
+        return ("dict", tuple((repr(k), deep_fp(v, _depth + 1, _seen, units)) for k, v in sorted(obj.items(), key=lambda kv: repr(kv[0]))))
+    if isinstance(obj, (list, tuple)):
+        return (type(obj).__name__ if not hasattr(obj, "_fields") else "nt",
+                tuple(deep_fp(v, _depth + 1, _seen, units) for v in obj))
+    if id(obj) in _seen:
+        return "<cycle>"
+    d = getattr(obj, "__dict__", None)
+    if d is None:
+        return repr(type(obj))
+    _seen.add(id(obj))
+    try:
+        return (type(obj).__name__, tuple((k, deep_fp(v, _depth + 1, _seen, units)) for k, v in sorted(d.items())
+                                          if not k.startswith("__") and not callable(v)))
+    finally:
+        _seen.discard(id(obj))
